@@ -41,19 +41,34 @@ func (s *scripted) Check(addr string, timeout time.Duration) error {
 type c15hyst struct {
 	Rise, Fall uint32
 	Seq        []bool
+	// Reset: the monitor is created with other thresholds (Rise0/Fall0) and brought to Rise/Fall by a run-time
+	// configuration update before the first check
+	Reset        bool
+	Rise0, Fall0 uint32
 }
 
 func runHyst(c c15hyst) (string, string) {
 	h := hostpkg.New("10.0.0.1:1")
 	set := hostpkg.NewSet(h)
 	chk := &scripted{}
-	m := &Monitor{
-		logger:  log.New("verif"),
-		config:  &pbhc.HealthCheck{Interval: time.Second, Timeout: time.Second, RiseThreshold: c.Rise, FallThreshold: c.Fall},
-		checker: chk,
-		hostSet: set,
-		done:    make(chan struct{}),
+	mkcfg := func(rise, fall uint32) *pbhc.HealthCheck {
+		return &pbhc.HealthCheck{Interval: time.Second, Timeout: time.Second, RiseThreshold: rise, FallThreshold: fall,
+			Checker: &pbhc.HealthCheck_TcpChecker{TcpChecker: &pbhc.TCPChecker{}}}
 	}
+	r0, f0 := c.Rise, c.Fall
+	if c.Reset {
+		r0, f0 = c.Rise0, c.Fall0
+	}
+	m, err := NewMonitor(mkcfg(r0, f0), set, log.New("verif"))
+	if err != nil || m == nil {
+		return "harness-cannot-create-monitor", fmt.Sprint(err)
+	}
+	if c.Reset {
+		if err := m.ResetHealthCheck(mkcfg(c.Rise, c.Fall)); err != nil {
+			return "config-update-rejected", err.Error()
+		}
+	}
+	m.checker = chk
 	state := true // healthy
 	run := 0      // consecutive results contrary to state
 	for i, ok := range c.Seq {
@@ -114,7 +129,11 @@ func c15hysteresis(env sched.Env) *sched.Report {
 				for i := range seq {
 					seq[i] = bits>>uint(i)&1 == 1
 				}
-				c := c15hyst{rise, fall, seq}
+				c := c15hyst{Rise: rise, Fall: fall, Seq: seq}
+				if bits%4 == 3 {
+					// a quarter of the sequences run on a monitor that was created with other thresholds
+					c.Reset, c.Rise0, c.Fall0 = true, (rise+2)%4, (fall+1)%4
+				}
 				o, d := runHyst(c)
 				rep.Execs++
 				sched.Progress(nil)
